@@ -33,6 +33,7 @@ import (
 	"github.com/robustirc/robustirc/internal/outputstream"
 	"github.com/robustirc/robustirc/internal/raftstore"
 	"github.com/robustirc/robustirc/internal/robust"
+	"github.com/robustirc/robustirc/internal/verifsim/verifrt"
 )
 
 const e1Network = "robustirc.net"
@@ -216,11 +217,13 @@ type e1Node struct {
 	// lastSnapIndex is the raft index of the newest successfully persisted snapshot.
 	lastSnapIndex uint64
 	dead          bool
+	order         *verifrt.Order // how this replica iterates maps (mapseam)
 	restored      bool // went through FSM.Restore at least once
 	cycled        bool // went through Marshal+Unmarshal at least once
 }
 
 func (n *e1Node) use() {
+	verifrt.Use(n.order)
 	ircServer = n.irc
 	outputStream = n.out
 	ircStore = n.ircs
